@@ -214,6 +214,17 @@ CHECKS = {
              'modelled); the std::string model; type codes 1..127.',
         technique='CBMC code contracts on C lowered from the real C++ per run',
     ),
+    'C05': dict(
+        category='other',
+        text='BOUNDED slice, raw mode only: "every DIE yielded by child of D has D as parent". child_iterator (dwit.cc) and parent_cache::find '
+             '(cache.cc) are lowered per run and run over the libdw forest model of C02: for every forest shape of <= 4 DIEs (22 shapes enumerated, '
+             'offsets symbolic) and every DIE D, child_iterator(D) yields exactly the DIEs whose parent is D, each once, in section order, and '
+             'parent_cache::find of each of them is D\'s offset.',
+        design_ref='DESIGN.md section 4 C05',
+        note='bounded; SLICE: cooked mode (import chains carried by value_die, fetch_parent_die), root/?root, unit, entry, and equality of DIEs reached '
+             'twice are NOT covered. Assumed contract on elfutils (props/c02/dw_model*.h); cache (std::map) and std::lower_bound modelled.',
+        technique='bounded unwinding (CBMC, unwinding assertions) of C lowered from the real C++ per run, against a forest model of libdw',
+    ),
     'C07': dict(
         category='proof',
         text='Slice: fix_dwarf_formsdata lowered per run from /repo/libzwerg/atval.cc. Contract: for DW_FORM_data1/2/4 the value '
